@@ -28,7 +28,7 @@ T = {
         ref="4/C03",
     ),
     "C04": dict(
-        technique="static analysis: def-use pairing of (point, value) at incumbent updates, term normalisation of the improvement orientation",
+        technique="static analysis: def-use pairing of (point, value) at incumbent updates, term normalisation of the improvement orientation, must-dataflow of the initial estimate, finite-domain evaluation of the noise-level start-up code",
         text="Decides that result fields are read from the incumbent tuple, that every (point, value) pair handed to the incumbent update stems from the same logger call, that improvement is f_base - f_new with strict moves, that the running poll best is replaced on '>' only, and that the initial incumbent is argmin with point and value taken at the same index.",
         note="Trusted: the log stores the value unchanged (C12-R3).",
         ref="4/C04",
@@ -46,7 +46,7 @@ T = {
         ref="4/C07",
     ),
     "C08": dict(
-        technique="static analysis: guard checklist over NaN-strict quantified-predicate normal forms (helpers inlined, validator and transformer combined), quantifier-distribution lint, dtype dataflow of in-place stores, call-graph reachability",
+        technique="static analysis: guard checklist over NaN-strict quantified-predicate normal forms (helpers inlined, validator and transformer combined), quantifier-distribution lint, dtype dataflow of in-place stores, call-graph reachability, finite-domain evaluation of the constructor's opening over which arguments are None, clamp of x0 to the effective bounds",
         text="Decides the structure of the validator: every documented invalid class has a raising guard (strictness included) on all paths before the transformer is built, validity predicates are per-coordinate, caller-supplied integer arrays are cast before float in-place stores, inputs are normalised with atleast_2d before comparison, and the constructor cannot reach the target.",
         note="Not proven: that no valid problem is rejected beyond the per-coordinate/strictness checks; rounding-distance cells are numeric.",
         ref="4/C08",
@@ -58,13 +58,13 @@ T = {
         ref="4/C09",
     ),
     "C10": dict(
-        technique="static analysis: CFG of the target-call handler, dominance of validation over record/count (one level into helpers), call graph through try bodies, sibling cross-check, target-value provenance with an is-array type-state",
+        technique="static analysis: CFG of the target-call handler, dominance of validation over record/count (one level into helpers), call graph through try bodies, sibling cross-check, target-value provenance with an is-array type-state, truth table of the (value, SD) format test",
         text="Decides that the handler around the target re-raises the same exception on every path, that validation raises dominate the record call and the counter increment, that no other try body in the package can reach the target, and that __call__ and add agree on the value/SD checklist (isscalar first).",
         note="Trusted: bare raise re-raises the active exception.",
         ref="4/C10",
     ),
     "C11": dict(
-        technique="static analysis: term algebra (sympy normal forms) on the transform lambdas, clamp recogniser, mask complement check, form check of the masking helper, provenance of the returned internal boxes",
+        technique="static analysis: term algebra (sympy normal forms) on the transform lambdas, clamp recogniser, mask complement check, form check of the masking helper, provenance of the returned internal boxes, truth table of the transform-type classification",
         text="Decides algebraic/structural clauses: both directions end in a two-sided clamp, ginv(g(x)) = x, g(plb) = -1, g(pub) = +1, positive slope, complementary masks shared by g and ginv, the log rule (all four bounds > 0 and pub/plb >= 10 on undetermined coordinates only), and that the masking helper selects by assignment (never v * mask, which is NaN for infinite entries). The 1e-9 accuracy is numeric and not decided.",
         note="Trusted: sympy simplification; exp/log are mutually inverse on positive reals.",
         ref="4/C11",
@@ -88,13 +88,13 @@ T = {
         ref="4/C14",
     ),
     "C15": dict(
-        technique="static analysis: unit-tag (SD/VAR) dataflow into every s2 sink, who-may-write the GP training triple, parallel-array selector consistency, may-alias analysis of the retried fit, sympy identity for the LCB schedule, normal form of the log high-water mark, must-dataflow of the re-centring request after incumbent moves",
+        technique="static analysis: unit-tag (SD/VAR) dataflow into every s2 sink, who-may-write the GP training triple, parallel-array selector consistency, may-alias analysis of the retried fit, sympy identity for the LCB schedule, normal form of the log high-water mark, must-dataflow of the re-centring request after incumbent moves, finite-domain evaluation of the training-set size, centre of the selected neighbourhood",
         text="Decides SD->variance unit discipline at every sink of gp.s2 / fit(s2), that the training triple is written only from the neighbour selector / incremental add, that U, Y, S are indexed by one ascending-distance selector with min/max clamps, that the acquisition is mean - sqrt(beta_t)*sd with the documented schedule, that the high-water mark the selector slices the log with advances per recorded row bounded only by the live capacity, and that every incumbent move leaves the re-centring request set (or returns a surrogate fitted around the new incumbent).",
         note="Trusted: gpyreg's s2 is a variance; argsort ascending.",
         ref="4/C15",
     ),
     "C16": dict(
-        technique="static analysis: handler analysis of every GP.fit call site, retry-loop bound, path-sensitive parallel-array consistency inside the retry, sibling agreement of fallback shapes, stored-noise consistency against gpyreg's fit contract, def-use closure of the thinning mask, completeness of re-bound training triples",
+        technique="static analysis: handler analysis of every GP.fit call site, retry-loop bound, path-sensitive parallel-array consistency inside the retry, sibling agreement of fallback shapes, stored-noise consistency against gpyreg's fit contract, def-use closure of the thinning mask, completeness of re-bound training triples, staleness (reaching-definition) check of the restart vector",
         text="Decides that every hyperparameter fit is inside a retry loop under a non-re-raising LinAlgError handler admitting at least five attempts, that X, Y and the noise vector passed to the next fit are filtered through the same mask (including the stored vector fit() falls back to when its argument is None), and that the posterior update has a fallback.",
         note="Ten consecutive failures (res unbound) are outside the property's quantifier and reported as a diagnostic.",
         ref="4/C16",
@@ -106,19 +106,19 @@ T = {
         ref="4/C17",
     ),
     "C18": dict(
-        technique="static analysis: min-selection idiom check, lock-step accumulation, CFG (one logger call outside loops), sympy affine form of the hedge probabilities, guard check of the hedge reward (def-use closure from GP predictions), mesh-size coherence dataflow for the search mesh, provenance of the ranked values, CFG check that the survivor selection is on every path of a generation, helper purity",
+        technique="static analysis: min-selection idiom check, lock-step accumulation, CFG (one logger call outside loops), sympy affine form of the hedge probabilities, guard check of the hedge reward (def-use closure from GP predictions), mesh-size coherence dataflow for the search mesh, provenance of the ranked values, CFG check that the survivor selection is on every path of a generation, helper purity, name-to-class dispatch table of the strategy that runs (class tables resolved)",
         text="Decides ascending argsort with index 0 / argmin on the same array, lock-step accumulation of candidates and values, acquisition evaluated on filtered rows only, one target call per search step outside any loop, and hedge probabilities affine in a normalised vector with a + n*b = 1, b = gamma, a >= 0, hedge rewards finite (GP-predicted quantities only under isfinite guards), search-mesh slots current where read. The rank-selection mask combinatorics are not decided.",
         note="Trusted: np.argsort ascending; ini constants gamma=0.125, n=2.",
         ref="4/C18",
     ),
     "C19": dict(
-        technique="static analysis: store-group (incumbent tuple) coherence, record-block index agreement, deep-copy setter check, result source table, must-definition dataflow of the result fields over exceptional edges, may-alias analysis of the stored x0",
+        technique="static analysis: store-group (incumbent tuple) coherence, record-block index agreement, deep-copy setter check, result source table, must-definition dataflow of the result fields over exceptional edges, may-alias analysis of the stored x0, finite-domain evaluation of the result labels, item-setter bypass lint",
         text="Decides that value/estimate/SD and the point the next iteration reads move together from the same history index, that one record block with one index records each iteration with x = inverse(u), that history/result setters deep-copy and reject unknown keys, that result fields read their designated state locations, and that the field set is the same on every path.",
         note="Trusted: copy.deepcopy semantics.",
         ref="4/C19",
     ),
     "C20": dict(
-        technique="static analysis: guard/dominance analysis of the options loader, ini reader, who-may-write options table, alias + in-place store analysis, key-identity check of the options container",
+        technique="static analysis: guard/dominance analysis of the options loader, ini reader, who-may-write options table, alias + in-place store analysis, key-identity check of the options container, load order of option files with derived defaults",
         text="Decides that loader writes are guarded by the protected-names set filled before the second file loads, name validation post-dominates loading, evaluation parameters are exec'd before every eval loop with no deferred use, every store into options outside the loader is a classified site, and no in-place store goes through an alias of a caller array or the caller's dict.",
         note="Known finding (recorded): in-place write into the caller's plausible bounds on the multi-row-x0 path.",
         ref="4/C20",
